@@ -256,7 +256,9 @@ def select(cmod):
         d = getattr(mod, "__dict__", {})
         if d.get("common") is old:
             d["common"] = cmod
-    for k, v in cmod.__dict__.items():
-        if not k.startswith("_") and callable(v) and hasattr(old, k) and pyModeS.__dict__.get(k) is getattr(old, k):
-            pyModeS.__dict__[k] = v
+    # what `from .c_common import *` in pyModeS/__init__.py would have bound: every public function the .pyx defines (or its
+    # __all__ if it has one) - whether or not the Python twin exported the same name
+    public = cmod.__dict__.get("__all__") or [k for k in EXPECTED if callable(cmod.__dict__.get(k))]
+    for k in public:
+        pyModeS.__dict__[k] = cmod.__dict__[k]
     pyModeS.common = cmod
